@@ -820,6 +820,26 @@ fn master<H: Harness>(h: &H, args: &Args) -> i32 {
             }
         }
     }
+    // A minimised replay of each defect that was found and repaired (recorded on
+    // the tree before the fix; on the repaired tree it reports "does not reproduce").
+    if let Ok(rd) = std::fs::read_dir(root.join("replays").join("fixtures")) {
+        let mut names: Vec<_> = rd.flatten().map(|e| e.path()).collect();
+        names.sort();
+        for pth in names {
+            let is_mine = pth
+                .file_name()
+                .map(|n| n.to_string_lossy().starts_with(h.property()))
+                .unwrap_or(false);
+            if is_mine {
+                if let Some(val) = std::fs::read(&pth)
+                    .ok()
+                    .and_then(|b| serde_json::from_slice::<Value>(&b).ok())
+                {
+                    samples.push(json!({"fixture_replay_of_repaired_defect": val}));
+                }
+            }
+        }
+    }
     let known_file = load_known();
     let evidence = json!({
         "property_id": h.property(),
